@@ -10,6 +10,7 @@ Proofs are in Lemmas/Missing.lean (`missing_*`); the statements are repeated her
 -/
 import JubakoModel.Model.Container
 import JubakoModel.Lemmas.Missing
+import JubakoModel.Lemmas.FuncsLookup
 
 namespace Jubako
 
@@ -163,5 +164,15 @@ theorem c11_check_disturbed_damaged (H : Bytes → Bytes) (fs fs' : FS) (c : Con
     3 damaged: every hypothesis above is discharged there (`MissingExample`) -/
 example : Disturbed MissingExample.fs MissingExample.fsRemoved MissingExample.c := MissingExample.disturbed_removed
 example : Disturbed MissingExample.fs MissingExample.fsReplaced MissingExample.c := MissingExample.disturbed_replaced
+
+/-! ### Tie to the source: the manifest's lookup of a pack by id -/
+
+/-- the lookup the reader model uses to tell "pack missing (with its description)" from "no such pack" is
+    the body of `ManifestPack::get_content_pack_info` translated on every run: the first pack info, in
+    manifest order, carrying the id — whatever was looked up before -/
+theorem c11_manifest_lookup_is_source_lookup (infos : List PackInfo) (packId : Nat) :
+    (infos.find? (fun i => i.packId == packId)).map (·.packId) =
+      Generated.manifestPackInfoById (infos.map (·.packId)) packId :=
+  gen_manifestLookup infos packId
 
 end Jubako
